@@ -2,6 +2,7 @@ package main
 
 import (
 	"fmt"
+	"runtime"
 	"strings"
 	"sync"
 	"time"
@@ -24,6 +25,7 @@ type tracer struct {
 	aborts int
 	limit  int
 	dirty  bool // some transaction since the last checkpoint committed buffers (or a shrinker ran)
+	gid    uint64 // goroutine serving the current call: events of other goroutines (the background shrinker) are not the call's
 	yield  bool // pause before every lock acquisition: a waiting call gets in between two rounds of the background shrinker
 }
 
@@ -48,6 +50,14 @@ func installHook() {
 			return
 		}
 		t.mu.Lock()
+		if t.gid != 0 && curGoid() != t.gid {
+			// a background transaction: it only tells the checkpoint that the disk may have changed
+			if kind == 3 {
+				t.dirty = true
+			}
+			t.mu.Unlock()
+			return
+		}
 		id, ok := t.txns[op]
 		if !ok {
 			id = len(t.txns)
@@ -81,6 +91,20 @@ func installHook() {
 			panic(fmt.Sprintf("livelock: %d aborted transactions inside one RPC", n))
 		}
 	}
+}
+
+// curGoid parses the goroutine number out of the stack header ("goroutine 123 [running]:").
+func curGoid() uint64 {
+	var buf [64]byte
+	n := runtime.Stack(buf[:], false)
+	var id uint64
+	for _, c := range buf[len("goroutine "):n] {
+		if c < '0' || c > '9' {
+			break
+		}
+		id = id*10 + uint64(c-'0')
+	}
+	return id
 }
 
 func (t *tracer) reset() {
